@@ -14,8 +14,10 @@ CONSTANTS D,        \* maximal number of operations in a behaviour
           Small     \* TRUE: reduced alphabet (quick), FALSE: full alphabet
 
 VARIABLES refs, logs, path,
-          fs        \* applicability of the path to the FILE ref store (pkg/ref/fs), see FsStep; not in the view
-vars == <<refs, logs, path, fs>>
+          fs,       \* applicability of the path to the FILE ref store (pkg/ref/fs), see FsStep; not in the view
+          fsdirs    \* names that have been a DIRECTORY of the file store on this path (a name below them was stored):
+                    \* the file store leaves emptied directories behind, such a name cannot become a ref again
+vars == <<refs, logs, path, fs, fsdirs>>
 View == <<refs, logs>>
 
 \* ("remotes/o/x/y" is at once the ref x/y of remote o and the ref y of a remote NAMED o/x)
@@ -72,7 +74,8 @@ Enabled(o) ==
 EndsWithSlash(p) == p = "" \/ SubSeq(p, Len(p), Len(p)) = "/"
 \* a file store cannot hold a name and a name below it (file and directory of the same path)
 Below(a, b) == Len(a) < Len(b) /\ SubSeq(b, 1, Len(a) + 1) = a \o "/"
-PathClash(n) == \E m \in DOMAIN refs : Below(n, m) \/ Below(m, n)
+PathClash(n) == n \in fsdirs \/ \E m \in DOMAIN refs : Below(n, m) \/ Below(m, n)
+DirsOf(r) == {m \in Names : \E n \in DOMAIN r : Below(m, n)}
 FsStep(o) ==
   CASE o[1] \in {"set", "setlog", "del", "get", "log"} -> IF PathClash(o[2]) THEN 0 ELSE 2
     [] o[1] \in {"ren", "copy"} /\ (PathClash(o[2]) \/ PathClash(o[3])) -> 0
@@ -91,7 +94,7 @@ Min2(a, b) == IF a < b THEN a ELSE b
 Export(r, l) == [refs |-> {<<n, r[n]>> : n \in DOMAIN r},
                  logs |-> {<<n, l[n]>> : n \in DOMAIN l}]
 
-Init == refs = <<>> /\ logs = <<>> /\ path = <<>> /\ fs = 2
+Init == refs = <<>> /\ logs = <<>> /\ path = <<>> /\ fs = 2 /\ fsdirs = {}
 
 Next ==
   /\ Len(path) < D
@@ -102,6 +105,7 @@ Next ==
             /\ logs' = s.logs
             /\ path' = Append(path, o)
             /\ fs' = Min2(fs, FsStep(o))
+            /\ fsdirs' = fsdirs \cup DirsOf(s.refs)
             /\ PrintT(<<"SCN", ToJson([path |-> path', ret |-> s.ret, post |-> Export(s.refs, s.logs), fs |-> fs'])>>)
 
 Spec == Init /\ [][Next]_vars
